@@ -1,5 +1,6 @@
 (* What a call reports: a call that returns no error has put exactly its whole input on the stream and reports its
-   length; a failed call has put at most a prefix of its input on the stream, and only when it closed the connection. *)
+   length; a call that fails has put at most a prefix of its input on the stream, and then either the connection is
+   closed, or (Sendfile whose Dup failed) the count of that prefix is returned with the error. *)
 From Coq Require Import List NArith ZArith Lia Bool ZifyBool.
 Import ListNotations.
 Require Import ConnIO Laws C01Proofs.
@@ -13,30 +14,26 @@ Hypothesis maxsend_pos : (0 < maxsend)%Z.
 Notation Inv := (Inv den).
 Notation fdata := (fdata den).
 
-(* the two known exceptions of the current code are excluded here (see C01.v for the witnesses):
-   a Dup failure after EAGAIN inside Sendfile, and a file position beyond the end of the file *)
-Definition guard (o : op B) : Prop :=
-  match o with
-  | OSendfile fid pos _ df _ => df = false /\ (pos <= blen (files fid))%N
-  | _ => True
-  end.
-
-Lemma sf_remain_range fid pos req : (pos <= blen (files fid))%N ->
-  (0 <= sf_remain fid (Z.of_N pos) req <= Z.of_N (blen (files fid)) - Z.of_N pos)%Z.
-Proof. intros H. unfold sf_remain. destruct (_ || _)%bool eqn:E; lia. Qed.
+Lemma sf_remain_le fid pos req : (sf_remain fid pos req <= Z.of_N (blen (files fid)) - pos)%Z.
+Proof. unfold sf_remain. destruct (_ || _)%bool eqn:E; lia. Qed.
 
 Lemma finish_res c1 n e credit : snd (finish c1 n e credit) = mkres n e (match e with ENone => credit | _ => bnil end) false.
 Proof. destruct e; reflexivity. Qed.
 
+Lemma finish_closed c1 n e credit : e <> ENone -> closed (fst (finish c1 n e credit)) = true.
+Proof. intros H. destruct e; try congruence; reflexivity. Qed.
+
+(* Write: success = whole input, its length; failure = nothing on the stream, connection closed *)
 Lemma op_write_res acc c b ks : Inv acc c -> closed c = false ->
   let r := snd (op_write c b ks) in
-  (rerr r = ENone -> rcredit r = b /\ rn r = Z.of_N (blen b)) /\ (rerr r <> ENone -> rcredit r = bnil).
+  (rerr r = ENone -> rcredit r = b /\ rn r = Z.of_N (blen b)) /\
+  (rerr r <> ENone -> rcredit r = bnil /\ closed (fst (op_write c b ks)) = true).
 Proof.
   intros HI Hc. unfold op_write. rewrite Hc.
   destruct (do_write c b ks) as [[c1 n] e] eqn:E. rewrite finish_res. cbn [rerr rcredit rn].
   destruct (do_write_spec den L acc c b ks c1 n e E HI Hc) as [(-> & _ & _ & ->)|(He & _)].
   - split; auto. congruence.
-  - split; [congruence|]. intros _. destruct e; congruence.
+  - split; [congruence|]. intros _. split; [destruct e; congruence|now apply finish_closed].
 Qed.
 
 Lemma total_one (b : B) : total [b] = blen b.
@@ -44,7 +41,8 @@ Proof. cbn. lia. Qed.
 
 Lemma op_writev_res acc c bs ks : Inv acc c -> closed c = false ->
   let r := snd (op_writev c bs ks) in
-  (rerr r = ENone -> rcredit r = bconcat bs /\ rn r = Z.of_N (total bs)) /\ (rerr r <> ENone -> rcredit r = bnil).
+  (rerr r = ENone -> rcredit r = bconcat bs /\ rn r = Z.of_N (total bs)) /\
+  (rerr r <> ENone -> rcredit r = bnil /\ closed (fst (op_writev c bs ks)) = true).
 Proof.
   intros HI Hc. unfold op_writev. rewrite Hc.
   destruct (match bs with [b] => do_write c b ks | _ => do_writev c bs ks end) as [[c1 n] e] eqn:E.
@@ -57,72 +55,110 @@ Proof.
     - destruct (do_writev_spec den L acc c _ ks c1 n e E HI Hc) as [(? & _ & _ & ?)|(? & _)]; auto. }
   destruct Hs as [(-> & ->)|He].
   - split; auto. congruence.
-  - split; [congruence|]. intros _. destruct e; congruence.
+  - split; [congruence|]. intros _. split; [destruct e; congruence|now apply finish_closed].
 Qed.
 
 Lemma fdata_prefix fid off n len : (0 <= off)%Z -> (0 <= n)%Z -> (n <= Z.max 0 len)%Z ->
-  exists rest, fdata fid off len = fdata fid off n ++ rest.
+  fdata fid off n = firstn (Z.to_nat n) (fdata fid off len).
 Proof.
-  intros Ho Hn Hl. destruct (Z.leb_spec len 0).
-  - exists []. rewrite !(fdata_nonpos den) by lia. reflexivity.
-  - eexists. apply (fdata_split den); lia.
+  intros Ho Hn Hl. unfold Laws.fdata. rewrite firstn_firstn. f_equal. lia.
+Qed.
+
+(* Sendfile *)
+Lemma op_sendfile_res acc c fid pos req df ks : Inv acc c -> closed c = false ->
+  let c' := fst (op_sendfile c fid pos req df ks) in
+  let r := snd (op_sendfile c fid pos req df ks) in
+  let inp := fdata fid (Z.of_N pos) (sf_remain fid (Z.of_N pos) req) in
+  (rerr r = ENone -> den (rcredit r) = inp /\ rn r = Z.of_nat (length inp)) /\
+  (rerr r <> ENone ->
+     exists k, den (rcredit r) = firstn (Z.to_nat k) inp /\ (0 <= k)%Z /\
+               (closed c' = true \/ (rerr r = EDupFail /\ rn r = k /\ wlist c' = wlist c /\ left c' = left c))).
+Proof.
+  intros HI Hc. cbn zeta. unfold op_sendfile. rewrite Hc.
+  set (p := Z.of_N pos). set (rem := sf_remain fid p req).
+  pose proof (sf_remain_le fid p req) as Hle. fold rem in Hle.
+  destruct (rem <=? 0)%Z eqn:Er.
+  { cbn [fst snd rerr rcredit rn]. rewrite (den_nil den L), (fdata_nonpos den) by lia. split; [auto|congruence]. }
+  assert (Hlen : Z.of_nat (length (fdata fid p rem)) = rem).
+  { rewrite (fdata_length den L) by lia. lia. }
+  destruct (wlist c) as [|it l] eqn:El.
+  - pose proof (sf_loop_spec den L maxsend_pos fid rem df ks acc c p rem HI Hc El ltac:(lia)) as H.
+    destruct (sf_loop c fid p rem rem df ks) as [[[c1 n] e] endoff]. cbn [fst snd rerr rcredit rn].
+    rewrite (den_frange den L). destruct H as (_ & H1 & H2 & H3 & H4). split.
+    + intros ->. destruct (H3 eq_refl) as (-> & _ & ->). replace (p + Z.max 0 rem - p)%Z with rem by lia. auto.
+    + intros He. exists (endoff - p)%Z. split; [apply fdata_prefix; lia|]. split; [lia|].
+      destruct (H4 He) as [(J & _)|(J1 & J2 & J3 & J4 & J5)]; [now left|].
+      right. split; [exact J1|]. split; [lia|]. rewrite <- El. auto.
+  - destruct df; cbn [fst snd rerr rcredit rn].
+    + split; [congruence|]. intros _. exists 0%Z. rewrite (den_nil den L). split; [reflexivity|]. split; [lia|].
+      right. rewrite El. auto.
+    + rewrite (den_frange den L). split; [auto|congruence].
+Qed.
+
+Lemma den_input_sendfile fid pos req df ks :
+  den (input (OSendfile fid pos req df ks)) = fdata fid (Z.of_N pos) (sf_remain fid (Z.of_N pos) req).
+Proof. cbn [input]. apply (den_frange den L). Qed.
+
+(* flush fails only together with closing the connection *)
+Lemma flush_loop_closed_on_error ks : forall c : conn B,
+  snd (fst (flush_loop c ks)) <> ENone -> closed (fst (fst (flush_loop c ks))) = true.
+Proof.
+  induction ks as [|k ks IH]; intros c; cbn [flush_loop].
+  - destruct (wlist c) as [|[d off|fid off rem] rest]; cbn [fst snd]; try congruence.
+    + destruct (_ <=? _)%N; cbn; congruence.
+    + destruct (_ <=? _)%Z; cbn; congruence.
+  - destruct (wlist c) as [|[d off|fid off rem] rest]; cbn [fst snd]; try congruence.
+    + destruct (_ <=? _)%N; [cbn; congruence|]. destruct k; cbn [fst snd]; try congruence; try apply IH. reflexivity.
+    + destruct (_ <=? _)%Z; [cbn; congruence|]. destruct k; cbn [fst snd]; try congruence; try apply IH. reflexivity.
 Qed.
 
 (* no error => the credit is the whole input and n its length *)
-Lemma step_report acc c o : Inv acc c -> guard o -> rerr (snd (step c o)) = ENone ->
+Lemma step_report acc c o : Inv acc c -> rerr (snd (step c o)) = ENone ->
   den (rcredit (snd (step c o))) = den (input o) /\
   rn (snd (step c o)) = Z.of_nat (length (den (input o))).
 Proof.
-  intros HI Hg. destruct o as [b ks|bs ks|fid pos req df ks|ks|]; cbn [step input].
-  - destruct (closed c) eqn:Hc. { unfold op_write. rewrite Hc. cbn. discriminate. }
+  intros HI. destruct o as [b ks|bs ks|fid pos req df ks|ks|].
+  - cbn [step input]. destruct (closed c) eqn:Hc. { unfold op_write. rewrite Hc. cbn. discriminate. }
     intros He. destruct (op_write_res acc c b ks HI Hc) as [H _]. destruct (H He) as [-> ->].
     split; auto. rewrite (den_len den L). lia.
-  - destruct (closed c) eqn:Hc. { unfold op_writev. rewrite Hc. cbn. discriminate. }
+  - cbn [step input]. destruct (closed c) eqn:Hc. { unfold op_writev. rewrite Hc. cbn. discriminate. }
     intros He. destruct (op_writev_res acc c bs ks HI Hc) as [H _]. destruct (H He) as [-> ->].
     split; auto. rewrite (total_len den L), (den_bconcat den L). lia.
-  - destruct Hg as [-> Hpos]. pose proof (sf_remain_range fid pos req Hpos) as Hr.
-    unfold op_sendfile. destruct (closed c) eqn:Hc. { cbn. discriminate. }
-    set (rem := sf_remain fid (Z.of_N pos) req) in *.
-    assert (Hlen : Z.of_nat (length (den (frange fid (Z.of_N pos) rem))) = rem).
-    { rewrite (den_frange den L), (fdata_length den L) by lia. lia. }
-    destruct (wlist c) as [|it l] eqn:El.
-    + pose proof (sf_loop_spec den L maxsend_pos fid rem false ks acc c (Z.of_N pos) rem HI Hc El ltac:(lia)) as H.
-      destruct (sf_loop c fid (Z.of_N pos) rem rem false ks) as [[[c1 n] e] endoff]. cbn [fst snd rerr rcredit rn].
-      intros ->. destruct H as (_ & _ & _ & H & _). destruct (H eq_refl) as (-> & _ & Hend).
-      specialize (Hend eq_refl). replace (endoff - Z.of_N pos)%Z with rem by lia. now rewrite Hlen.
-    + cbn [fst snd rerr rcredit rn]. intros _. now rewrite Hlen.
-  - intros _. unfold op_flush. destruct (closed c); [cbn; rewrite !(den_nil den L); split; reflexivity|].
+  - rewrite den_input_sendfile. cbn [step].
+    destruct (closed c) eqn:Hc. { unfold op_sendfile. rewrite Hc. cbn. discriminate. }
+    intros He. destruct (op_sendfile_res acc c fid pos req df ks HI Hc) as [H _]. now apply H.
+  - cbn [step input]. intros _. unfold op_flush. destruct (closed c); [cbn; rewrite !(den_nil den L); split; reflexivity|].
     destruct (wlist c); [cbn; rewrite !(den_nil den L); split; reflexivity|].
     destruct (flush_loop c ks) as [[c1 e] sp]. cbn. rewrite !(den_nil den L); split; reflexivity.
-  - intros _. unfold op_close. destruct (closed c); cbn; rewrite !(den_nil den L); split; reflexivity.
+  - cbn [step input]. intros _. unfold op_close. destruct (closed c); cbn; rewrite !(den_nil den L); split; reflexivity.
 Qed.
 
-(* an error => at most a prefix of the input went out, and only together with closing the connection *)
+(* an error => at most a prefix of the input went out; then the connection is closed, or the call was a Sendfile whose
+   Dup failed and the length of that prefix is the count returned with the error *)
 Lemma step_failed acc c o : Inv acc c -> rerr (snd (step c o)) <> ENone ->
-  (exists rest, den (input o) = den (rcredit (snd (step c o))) ++ rest) /\
-  (den (rcredit (snd (step c o))) = [] \/ closed (fst (step c o)) = true).
+  exists k, den (rcredit (snd (step c o))) = firstn (Z.to_nat k) (den (input o)) /\ (0 <= k)%Z /\
+    (closed (fst (step c o)) = true \/ (rerr (snd (step c o)) = EDupFail /\ rn (snd (step c o)) = k)).
 Proof.
-  intros HI. destruct o as [b ks|bs ks|fid pos req df ks|ks|]; cbn [step input].
-  - destruct (closed c) eqn:Hc.
-    { unfold op_write. rewrite Hc. cbn. intros _. rewrite (den_nil den L). split; [now eexists|now left]. }
-    intros He. destruct (op_write_res acc c b ks HI Hc) as [_ H]. rewrite (H He), (den_nil den L). split; [now eexists|now left].
-  - destruct (closed c) eqn:Hc.
-    { unfold op_writev. rewrite Hc. cbn. intros _. rewrite (den_nil den L). split; [now eexists|now left]. }
-    intros He. destruct (op_writev_res acc c bs ks HI Hc) as [_ H]. rewrite (H He), (den_nil den L). split; [now eexists|now left].
-  - unfold op_sendfile. destruct (closed c) eqn:Hc.
-    { cbn. intros _. rewrite (den_nil den L). split; [now eexists|now left]. }
-    set (rem := sf_remain fid (Z.of_N pos) req) in *.
-    destruct (wlist c) as [|it l] eqn:El.
-    + pose proof (sf_loop_spec den L maxsend_pos fid rem df ks acc c (Z.of_N pos) rem HI Hc El ltac:(lia)) as H.
-      destruct (sf_loop c fid (Z.of_N pos) rem rem df ks) as [[[c1 n] e] endoff]. cbn [fst snd rerr rcredit rn].
-      intros He. destruct H as (_ & H1 & H2 & _ & H). destruct (H He) as (Hcl & _).
-      split; auto. rewrite !(den_frange den L). apply fdata_prefix; lia.
-    + destruct df; cbn [fst snd rerr rcredit]; [|congruence].
-      intros _. rewrite (den_nil den L). split; [now eexists|now left].
-  - intros _. unfold op_flush. destruct (closed c); [cbn; rewrite !(den_nil den L); (split; [now eexists|now left])|].
-    destruct (wlist c); [cbn; rewrite !(den_nil den L); (split; [now eexists|now left])|].
-    destruct (flush_loop c ks) as [[c1 e] sp]. cbn. rewrite !(den_nil den L). split; [now eexists|now left].
-  - intros _. unfold op_close. destruct (closed c); cbn; rewrite !(den_nil den L); (split; [now eexists|now left]).
+  intros HI. destruct o as [b ks|bs ks|fid pos req df ks|ks|].
+  - cbn [step input]. destruct (closed c) eqn:Hc.
+    { unfold op_write. rewrite Hc. cbn. intros _. exists 0%Z. rewrite (den_nil den L). auto with zarith. }
+    intros He. destruct (op_write_res acc c b ks HI Hc) as [_ H]. destruct (H He) as [-> Hcl].
+    exists 0%Z. rewrite (den_nil den L). auto with zarith.
+  - cbn [step input]. destruct (closed c) eqn:Hc.
+    { unfold op_writev. rewrite Hc. cbn. intros _. exists 0%Z. rewrite (den_nil den L). auto with zarith. }
+    intros He. destruct (op_writev_res acc c bs ks HI Hc) as [_ H]. destruct (H He) as [-> Hcl].
+    exists 0%Z. rewrite (den_nil den L). auto with zarith.
+  - rewrite den_input_sendfile. cbn [step]. destruct (closed c) eqn:Hc.
+    { unfold op_sendfile. rewrite Hc. cbn. intros _. exists 0%Z. rewrite (den_nil den L). auto with zarith. }
+    intros He. destruct (op_sendfile_res acc c fid pos req df ks HI Hc) as [_ H].
+    destruct (H He) as (k & H1 & H2 & [H3|(H3 & H4 & _)]); exists k; auto.
+  - cbn [step input]. unfold op_flush. destruct (closed c) eqn:Hc.
+    { cbn. intros _. exists 0%Z. rewrite (den_nil den L). auto with zarith. }
+    destruct (wlist c) eqn:El. { cbn. congruence. }
+    pose proof (flush_loop_closed_on_error ks c) as H.
+    destruct (flush_loop c ks) as [[c1 e] sp]. cbn [fst snd rerr rcredit] in *. intros He.
+    exists 0%Z. rewrite (den_nil den L). split; [reflexivity|]. split; [lia|]. left. now apply H.
+  - cbn [step input]. unfold op_close. destruct (closed c); cbn; congruence.
 Qed.
 
 End Report.
